@@ -162,6 +162,37 @@ def matchPhases : List (List Char) → List Char → Bool
   | [], ks => ks.isEmpty
   | ph :: phs, ks => matchPhases phs (ks.dropWhile (fun c => ph.contains c))
 
+/-! ### the storage operations of `prune_repository` (`commands/prune.rs`) as a function of the two options that move
+removals -/
+
+/-- `PruneOptions::{instant_delete, early_delete_index}` -/
+structure PruneFlags where
+  instantDelete : Bool
+  earlyDeleteIndex : Bool
+deriving DecidableEq, Repr
+
+/-- `let early_delete_index = opts.early_delete_index && opts.instant_delete;` — the option is honoured only together
+with `instant_delete` ("Delete index files early if instant-delete is chosen") -/
+def PruneFlags.early (f : PruneFlags) : Bool := f.earlyDeleteIndex && f.instantDelete
+
+/-- the tail of `prune_repository`: `if !indexes_remove.is_empty() && early_delete_index { delete index files }`, then the
+repack (new packs, `indexer.finalize` = the new index file), then `if … && !early_delete_index { delete index files }`, then
+the pack removals.  `ps` / `idx` = what the repack writes, `rmIdx` = `indexes_remove`, `rmPacks` = the packs to delete. -/
+def pruneOpsOpt (f : PruneFlags) (ps : List Pack) (idx : IndexFile) (rmIdx rmPacks : List Nat) : List Op :=
+  (if f.early then rmIdx.map Op.removeIndex else []) ++ ps.map Op.writePack ++ [Op.writeIndex idx] ++
+  (if f.early then [] else rmIdx.map Op.removeIndex) ++ rmPacks.map Op.removePack
+
+/-- all of `prune_repository`: before the tail, the stored packs no index file knows (`prune_plan.existing_packs`) are removed
+at once with `instant_delete` (without it they are only marked: entries of the new index file's `packs_to_delete`). -/
+def pruneOpsFull (f : PruneFlags) (unindexed : List Nat) (ps : List Pack) (idx : IndexFile) (rmIdx rmPacks : List Nat) :
+    List Op :=
+  (if f.instantDelete then unindexed.map Op.removePack else []) ++ pruneOpsOpt f ps idx rmIdx rmPacks
+
+/-- the phase language the trace monitor holds a prune run against, from the same two conditions -/
+def prunePhases (f : PruneFlags) : List (List Char) :=
+  (if f.instantDelete then [['p']] else []) ++ (if f.early then [['i']] else []) ++ [['P', 'I']] ++
+  (if f.early then [] else [['i']]) ++ [['p']]
+
 def phasesOf (cmd : String) : Option (List (List Char)) :=
   match cmd with
   | "backup" => some [['P', 'I'], ['S']]
@@ -170,8 +201,10 @@ def phasesOf (cmd : String) : Option (List (List Char)) :=
   | "rewrite" => some [['P', 'I'], ['S'], ['s']]
   | "repairsnap" => some [['P', 'I'], ['S'], ['s']]
   | "forget" => some [['s']]
-  | "prune" => some [['P', 'I'], ['i'], ['p']]
-  | "prune-instant" => some [['p'], ['P', 'I'], ['i'], ['p']]
+  | "prune" => some (prunePhases ⟨false, false⟩)
+  | "prune-instant" => some (prunePhases ⟨true, false⟩)
+  -- `early_delete_index` without `instant_delete` is inert: the order of plain prune
+  | "prune-early" => some (prunePhases ⟨false, true⟩)
   | "repairidx" => some [['I'], ['i']]
   | "repairidx-readall" => some [['I'], ['i']]
   | "config" => some [['O']]
